@@ -18,11 +18,43 @@ def is_not_too_large(event, config):
         raise StorageError("invalid: 280 characters should be enough for anybody")
 
 
+def _is_hex(value, length):
+    return (
+        isinstance(value, str)
+        and len(value) == length
+        and all(c in "0123456789abcdef" for c in value)
+    )
+
+
+def is_well_formed(event):
+    """
+    Check what Event.verify() takes for granted: lowercase hex fields of the right
+    size, an integer timestamp, a list of tag lists and an id that really is
+    the hash of the event (verify() only checks the signature of the recomputed hash)
+    """
+    if not (
+        _is_hex(event.id, 64) and _is_hex(event.pubkey, 64) and _is_hex(event.sig, 128)
+    ):
+        return False
+    if type(event.created_at) is not int or type(event.kind) is not int:
+        return False
+    if not isinstance(event.tags, (list, tuple)) or not all(
+        isinstance(tag, (list, tuple)) and tag for tag in event.tags
+    ):
+        return False
+    try:
+        return event.id == event.compute_id(
+            event.pubkey, event.created_at, event.kind, event.tags, event.content
+        )
+    except Exception:
+        return False
+
+
 def is_signed(event, config):
     """
     Ensure the event is correctly formatted and signed
     """
-    if not event.verify():
+    if not (is_well_formed(event) and event.verify()):
         raise StorageError("invalid: Bad signature")
 
 
